@@ -109,7 +109,7 @@ Definition check_auth_gen (skip_role mask_test : bool) (now : Z) (limiter_ok : b
     match q_meth q with
     | GET => None
     | _ => match q_origin q with
-           | BadOrigin => Some (Refuse 0)       (* url.Parse failed: error returned, nothing written *)
+           | BadOrigin => Some (Refuse 400)     (* url.Parse failed: 400 since fix 335bec7 (before: error returned, nothing written = empty 200) *)
            | CrossOrigin => Some (Refuse 401)
            | _ => None
            end
